@@ -162,10 +162,7 @@ func runC03(c *fw.Ctx, idx int) fw.Result {
 			if !useStdin {
 				a = append(a, "-q", p("aln.fasta"))
 			}
-			if hard {
-				a = append(a, "--hard-gaps")
-			}
-			return a
+			return boolFlag(a, "hard-gaps", hard, idx%4 == 3 || idx == 2)
 		}, map[bool][]byte{true: []byte(aln), false: nil}[useStdin], map[bool]string{true: "", false: "-o"}[idx%3 == 0], got)
 	}
 	if !exhaustive && nsnp > 0 && ncompat > 0 {
